@@ -34,6 +34,7 @@ HeadSrc(h, lvl) ==
     [] OTHER               -> ttl \o "\n-------\n\n"
 RefSrc(h) == IF h.manual THEN "[man" \o ToString(h.t) \o "]" ELSE "[" \o Heads[h.t].s \o "][]"
 EvSrc(e) == CASE e.a = "call"   -> "x" \o Open(e.k) \o e.l \o "]"
+              [] e.a = "loccall" -> "x[p. 3][#" \o e.l \o "]"            \* a citation called with a locator
               [] e.a = "inline" -> "y[^inline note " \o e.l \o "]"
               [] OTHER          -> "[Not cited][#" \o e.l \o "]"
 CrossOn(d) == d.cross /\ ~d.nested          \* (one kind of call from inside a list at a time: their order in the output depends on the order of the entries)
@@ -80,14 +81,14 @@ Xrefs(d) == LET idx == {i \in 1 .. Len(d.heads) : d.heads[i].ref} IN
 \* ---- generation -----------------------------------------------------------------------------------------------------
 VARIABLE doc
 Pick(S) == IF Sim THEN {RandomElement(S)} ELSE S
-Events == {[a |-> "call", k |-> k, l |-> l] : k \in Kinds, l \in Labels} \cup {[a |-> "inline", k |-> "fn", l |-> l] : l \in {"a", "b"}} \cup {[a |-> "notcited", k |-> "cn", l |-> l] : l \in Labels}
+Events == {[a |-> "call", k |-> k, l |-> l] : k \in Kinds, l \in Labels} \cup {[a |-> "loccall", k |-> "cn", l |-> l] : l \in {"b"}} \cup {[a |-> "inline", k |-> "fn", l |-> l] : l \in {"a", "b"}} \cup {[a |-> "notcited", k |-> "cn", l |-> l] : l \in Labels}
 Init == doc \in {[ev |-> <<>>, heads |-> <<>>, toc |-> t, tocr |-> tr, table |-> tb, nest |-> n, nested |-> ns, base |-> b, capsp |-> cs, cross |-> cr] :
                     t \in Pick(BOOLEAN), tr \in Pick(BOOLEAN), tb \in Pick(BOOLEAN), n \in Pick({"plain", "list", "quote"}), ns \in (IF MaxEv = 0 THEN {FALSE} ELSE Pick(BOOLEAN)), b \in Pick({0, 2}), cs \in Pick(BOOLEAN), cr \in (IF MaxEv = 0 THEN {FALSE} ELSE Pick(BOOLEAN))}          \* (calls from inside definitions need calls: not varied in the headings-only family)
         /\ (doc.base > 0 => ~doc.tocr)            \* which levels a restricted TOC means under a shifted base level is not prescribed
 AddEv == Len(doc.ev) < MaxEv /\ doc.heads = <<>> /\ \E e \in Pick(Events) :
             /\ (e.a = "inline" => \A i \in 1 .. Len(doc.ev) : ~(doc.ev[i].a = "inline" /\ doc.ev[i].l = e.l))        \* inline note texts are distinct
             /\ (e.a = "notcited" => \A i \in 1 .. Len(doc.ev) : ~(doc.ev[i].k = "cn" /\ doc.ev[i].l = e.l))           \* a key is either cited or listed as not cited
-            /\ (e.a = "call" /\ e.k = "cn" => \A i \in 1 .. Len(doc.ev) : ~(doc.ev[i].a = "notcited" /\ doc.ev[i].l = e.l))
+            /\ (e.a \in {"call", "loccall"} /\ e.k = "cn" => \A i \in 1 .. Len(doc.ev) : ~(doc.ev[i].a = "notcited" /\ doc.ev[i].l = e.l))
             /\ doc' = [doc EXCEPT !.ev = Append(@, e)]
 AddHead == Len(doc.heads) < MaxHead /\ \E t \in Pick(1 .. Len(Heads)), s \in Pick(Styles), m \in Pick(BOOLEAN), r \in Pick(BOOLEAN) :
             /\ \A i \in 1 .. Len(doc.heads) : doc.heads[i].t # t                                                      \* distinct titles (duplicates: separate family)
